@@ -105,7 +105,7 @@ def run_shard(shard: Dict[str, Any]) -> Acc:
         acc.hist("rounds_length", len(r))
         acc.hist("distance", inp["distance"])
         acc.case(bp.phash(inp), (0 in r or 1 in r) and len(r) >= 2, sample=inp)
-        check_input(inp, acc)
+        common.guarded(acc, check_input, inp, acc, case={"library": inp})
     return acc
 
 
